@@ -2,6 +2,8 @@ package gabi
 
 import (
 	"sync"
+
+	"github.com/privacybydesign/gabi/big"
 )
 
 func init() {
@@ -40,6 +42,61 @@ func vpC20_O2() {
 	vpAssert("concurrent cache operations succeed", err1 == nil && err2 == nil)
 	if consume {
 		vpAssert("consumer obtained a builder", b2 != nil && b2.commit != nil)
+	}
+	vpAssert("cache holds at most one prepared commitment", cred.nonrevCache == nil || len(cred.nonrevCache) <= 1)
+}
+
+func init() {
+	vpHarnesses["vpC20_O4"] = vpC20_O4
+}
+
+// C20-O4: one credential used by two proving goroutines (whole disclosure
+// proofs with non-revocation parts), or by one prover while the other
+// goroutine prepares the cache. Under every schedule (bounded preemptions, a
+// switch at every access to shared state): no data race, no deadlock, both
+// proofs are produced, each verifies like a sequentially produced one, the two
+// proofs share no randomised element, and the cache holds at most one commitment.
+// (Attribute 1 is disclosed: with it hidden the known finding of C11 - the
+// verifier's guess of the revocation attribute - would be met.)
+func vpC20_O4() {
+	s := vpRevocableCredential(0, "")
+	cred := s.cred
+	if vpBool("preparedBefore") {
+		vpAssume(cred.NonrevPrepareCache() == nil)
+	}
+	secondPrepares := vpBool("secondPrepares")
+	ctx, nonce1, nonce2 := vpBigBits("ctx", 256), vpBigBits("nonce1", 80), vpBigBits("nonce2", 80)
+	var wg sync.WaitGroup
+	var p1, p2 *ProofD
+	var err1, err2 error
+	wg.Add(2)
+	go func() {
+		defer wg.Done()
+		p1, err1 = cred.CreateDisclosureProof([]int{1}, nil, true, ctx, nonce1)
+	}()
+	go func() {
+		defer wg.Done()
+		if secondPrepares {
+			err2 = cred.NonrevPrepareCache()
+		} else {
+			p2, err2 = cred.CreateDisclosureProof([]int{1}, nil, true, ctx, nonce2)
+		}
+	}()
+	wg.Wait()
+	vpAssert("concurrent operations on one credential succeed", err1 == nil && err2 == nil)
+	vpAssert("concurrently produced proof verifies", p1 != nil && p1.Verify(s.pk, ctx, nonce1, false))
+	if !secondPrepares {
+		vpAssert("concurrently produced proof verifies", p2 != nil && p2.Verify(s.pk, ctx, nonce2, false))
+		vpAssert("concurrent proofs share no randomised signature element", !vpSameGroupElem(p1.A, p2.A))
+		n1, n2 := p1.NonRevocationProof, p2.NonRevocationProof
+		vpAssert("concurrent proofs carry their own non-revocation parts", n1 != nil && n2 != nil && n1 != n2)
+		cu1, cu2 := new(big.Int).Mod(n1.Cu, s.pk.N), new(big.Int).Mod(n2.Cu, s.pk.N)
+		vpAssert("concurrent proofs share no non-revocation commitment", !vpSameGroupElem(n1.Cr, n2.Cr) && !vpSameGroupElem(cu1, cu2))
+		for j := range p1.AResponses {
+			r1 := vpImplied(p1.AResponses[j], p1.C, cred.Attributes[j])
+			r2 := vpImplied(p2.AResponses[j], p2.C, cred.Attributes[j])
+			vpAssert("concurrent proofs share no attribute randomiser", r1.Cmp(r2) != 0)
+		}
 	}
 	vpAssert("cache holds at most one prepared commitment", cred.nonrevCache == nil || len(cred.nonrevCache) <= 1)
 }
